@@ -10,11 +10,15 @@
  *   files     ';'-separated  namehex:kind:modeoctal:contenthex   ("-" = no files); kind
  *             f regular file, d directory, m maildir (tmp/new/cur), T open/stat fail with EIO, A with EACCES
  * output per case:
- *   <doit> <blob> <exit> <stdout-hex> <stderr-hex> <opened> <events> <env>
+ *   <doit> <blob> <exit> <stdout-hex> <stderr-hex> <opened> <events> <env> <stats> <files>
  *   opened    names given to open_read(), in order, hex, comma separated
  *   events    doit mode, in order: M<fn> open_append(fn) (mbox), D<dir> chdir(dir) in the maildir child,
  *             P<cmd> execv("/bin/sh","-c",cmd) in the program child, Q<sender>:<body>:<rcpt>:<rcpt>... forwarded copy
  *   env       DEFAULT,NEWSENDER,DTLINE,RPLINE,UFLINE,EXT2,EXT3,EXT4,HOST2,HOST3,HOST4,RECIPIENT  (hex, "!" = unset)
+ *   stats     names given to stat() by the program itself (not "."), in order, hex, comma separated ("-" = none)
+ *   files     post-run scan of the home directory: every regular file that the case description does not list (hex of
+ *             the path relative to the home; a file inside a directory called tmp/new/cur is reported as <dir>/ followed by '*')
+ *             and every listed regular file whose size or content changed ('~' + hex name); sorted; "-" = none
  * A case whose home directory cannot be realised as described prints "<doit> <blob> SKIP".
  */
 #include "hcommon.h"
@@ -29,7 +33,7 @@ static pid_t k_mainpid;
 static jmp_buf k_jb;
 static int k_exitcode;
 static int k_evpipe[2];
-static hbuf k_out, k_err, k_opens, k_ev;
+static hbuf k_out, k_err, k_opens, k_ev, k_stats;
 
 __attribute__((noreturn)) static void c13_exit(int c) {
   if (getpid() != k_mainpid) _exit(c);          /* a forked child really exits */
@@ -60,11 +64,12 @@ extern int subgetoptind, subgetoptpos;
 
 /* ---------------------------------------------------------------- case description */
 typedef struct { char name[600]; char kind; int mode; unsigned char content[1200]; int clen; } fent;
+#define MSGCAP 20000
 #define MAXF 24
 typedef struct {
   int doit; char homemode[12]; int qq;
   char k_dash[64], k_ext[600], k_host[200], k_local[800], k_sender[300], k_alias[300];
-  unsigned char msg[4096]; int msglen;
+  unsigned char msg[MSGCAP]; int msglen;
   fent f[MAXF]; int nf;
 } kase;
 static kase K;
@@ -121,6 +126,7 @@ int open_append(char *fn) {
   return open(fn, O_WRONLY | O_NDELAY | O_APPEND | O_CREAT, 0600);
 }
 static int c13_stat(const char *p, struct stat *st) {
+  if (getpid() == k_mainpid && strcmp(p, ".")) k_hexlist(&k_stats, p, strlen(p));
   if (!strcmp(p, ".") && K.homemode[0] == 'x') { errno = EIO; return -1; }
   const fent *e = k_inject(p);
   if (e) { errno = e->kind == 'T' ? EIO : EACCES; return -1; }
@@ -241,6 +247,55 @@ static int k_setup(void) {
   return 0;
 }
 
+/* post-run scan: files that were not there before, and listed files that changed */
+#define MAXSCAN 64
+static char k_scan[MAXSCAN][1500]; static int k_nscan;
+static const fent *k_listed(const char *rel) {
+  for (int i = 0; i < K.nf; i++) if (K.f[i].kind == 'f' && !strcmp(K.f[i].name, rel)) return &K.f[i];
+  return 0;
+}
+static void k_scan_add(const char *pfx, const char *rel) {
+  if (k_nscan >= MAXSCAN) return;
+  static const char d[] = "0123456789abcdef"; char *o = k_scan[k_nscan++]; size_t n = 0;
+  for (const char *c = pfx; *c; c++) o[n++] = *c;
+  for (const unsigned char *c = (const unsigned char *)rel; *c && n < 1400; c++) { o[n++] = d[*c >> 4]; o[n++] = d[*c & 15]; }
+  o[n] = 0;
+}
+static void k_scandir(const char *abs, const char *rel) {
+  DIR *d = opendir(abs); if (!d) return;
+  struct dirent *e; char p[1500], r[1500];
+  const char *base = strrchr(rel, '/'); base = base ? base + 1 : rel;
+  int spool = !strcmp(base, "tmp") || !strcmp(base, "new") || !strcmp(base, "cur");
+  while ((e = readdir(d))) {
+    if (!strcmp(e->d_name, ".") || !strcmp(e->d_name, "..")) continue;
+    snprintf(p, sizeof p, "%s/%s", abs, e->d_name);
+    snprintf(r, sizeof r, "%s%s%s", rel, *rel ? "/" : "", e->d_name);
+    struct stat st;
+    if (lstat(p, &st) == -1) continue;
+    if (S_ISDIR(st.st_mode)) { k_scandir(p, r); continue; }
+    const fent *f = k_listed(r);
+    if (!f) {
+      if (spool) { char q[1500]; snprintf(q, sizeof q, "%s/*", rel); k_scan_add("", q); } else k_scan_add("", r);
+      continue;
+    }
+    int changed = st.st_size != f->clen;
+    if (!changed && f->clen) {
+      unsigned char b[1200]; int fd = open(p, O_RDONLY);
+      if (fd == -1 || read(fd, b, f->clen) != f->clen || memcmp(b, f->content, f->clen)) changed = (fd != -1 || (f->mode & 0400));
+      if (fd != -1) close(fd);
+    }
+    if (changed) k_scan_add("~", r);
+  }
+  closedir(d);
+}
+static int k_scancmp(const void *a, const void *b) { return strcmp((const char *)a, (const char *)b); }
+static void k_postscan(void) {
+  k_nscan = 0;
+  chmod(k_home, 0700);
+  k_scandir(k_home, "");
+  qsort(k_scan, k_nscan, sizeof k_scan[0], k_scancmp);
+}
+
 /* ---------------------------------------------------------------- blob (de)serialisation */
 static void put_hex(const void *s, size_t n) { h_hex(s, n); }
 static void emit_blob(void) {
@@ -322,7 +377,7 @@ static void one(void) {
   if (K.msglen && pwrite(0, K.msg, K.msglen, 0) != K.msglen) {}
   lseek(0, 0, SEEK_SET);
   /* reset everything the program dirties */
-  hbuf_reset(&k_out); hbuf_reset(&k_err); hbuf_reset(&k_opens); hbuf_reset(&k_ev);
+  hbuf_reset(&k_out); hbuf_reset(&k_err); hbuf_reset(&k_opens); hbuf_reset(&k_ev); hbuf_reset(&k_stats);
   k_ss.p = 0;
   subgetoptind = 1; subgetoptpos = 0;
   count_file = count_forward = count_program = 0; mailforward_qp = 0;
@@ -346,6 +401,12 @@ static void one(void) {
   fputc(' ', h_out);
   static const char *ev[] = { "DEFAULT", "NEWSENDER", "DTLINE", "RPLINE", "UFLINE", "EXT2", "EXT3", "EXT4", "HOST2", "HOST3", "HOST4", "RECIPIENT" };
   for (int i = 0; i < 12; i++) env_field(ev[i], i == 0);
+  fputc(' ', h_out);
+  if (k_stats.n) fwrite(k_stats.p, 1, k_stats.n, h_out); else fputc('-', h_out);
+  fputc(' ', h_out);
+  k_postscan();
+  if (!k_nscan) fputc('-', h_out);
+  for (int i = 0; i < k_nscan; i++) { if (i) fputc(',', h_out); fputs(k_scan[i], h_out); }
   fputc('\n', h_out);
 }
 
@@ -420,6 +481,42 @@ static void msg_variant(int v) {
   memcpy(K.msg, m, n); K.msglen = n;
 }
 #define NMSGV 16
+
+/* `n` bytes of header lines, none of them empty, none of them a Delivered-To line (n != 1) */
+static int k_padding(unsigned char *o, int n, int linelen) {
+  int w = 0, k = 0;
+  while (n - w > 0) {
+    int l = n - w >= linelen ? linelen : n - w;
+    if (n - w - l == 1) l = l > 2 ? l - 1 : l + 1;     /* never leave a 1-byte line */
+    if (l < 2) l = 2;
+    if (l > n - w) l = n - w;
+    for (int i = 0; i < l - 1; i++) o[w + i] = i == 0 ? 'X' : i == 1 ? 'a' + k % 26 : i == 2 ? ':' : i == 3 ? ' ' : 'p';
+    o[w + l - 1] = '\n'; w += l; k++;
+  }
+  return w;
+}
+/* the message: `start` bytes of other header lines, then the line `dtkind`, then `tail`.
+   dtkind 0: the recipient's own Delivered-To line; 1: the same with its last character changed; 2: the same, one byte shorter
+   (prefix); 3: own line, but after the blank line that ends the header */
+static void msg_at_offset(int start, int dtkind, int linelen) {
+  char dt[1400]; int dl = k_dtline(dt); int n = 0;
+  if (start == 1) start = 2;
+  if (start + dl + 64 > MSGCAP) start = MSGCAP - dl - 64;
+  if (dtkind == 3) { n = k_padding(K.msg, start - 1 > 1 ? start - 1 : 0, linelen); K.msg[n++] = '\n'; }
+  else n = k_padding(K.msg, start, linelen);
+  if (dtkind == 1) dt[dl - 2] ^= 1;
+  if (dtkind == 2) { dt[dl - 2] = '\n'; dl--; }
+  memcpy(K.msg + n, dt, dl); n += dl;
+  memcpy(K.msg + n, "Subject: s\n\nbody\n", 17); n += 17;
+  K.msglen = n;
+}
+/* put `pad` bytes of header lines in front of the current message */
+static void msg_prepend(int pad) {
+  if (pad < 2 || K.msglen + pad > MSGCAP) return;
+  memmove(K.msg + pad, K.msg, K.msglen);
+  k_padding(K.msg, pad, 40 + pad % 37);
+  K.msglen += pad;
+}
 
 static uint64_t g_id; static int g_shard, g_nshards;
 static int mine(void) { return (int)(g_id++ % g_nshards) == g_shard; }
@@ -536,6 +633,12 @@ static void rnd_case(int doit) {
   K.qq = h_below(8) ? 0 : 1 + h_below(2);
   rnd_home(doit);
   msg_variant(h_below(3) ? 0 : h_below(NMSGV));
+  /* long headers: the interesting line may lie anywhere relative to the reader's buffer boundaries */
+  if (h_below(4) == 0) {
+    static const int B[] = { 128, 256, 512, 1024, 2048, 4096, 8192 };
+    int b = B[h_below(7)] * (1 + (int)h_below(2));
+    msg_prepend(h_below(3) ? b - (int)h_below(80) : (int)h_below(9000));
+  }
 }
 
 static void generate(int level, int nrandom, uint64_t seed) {
@@ -573,6 +676,21 @@ static void generate(int level, int nrandom, uint64_t seed) {
         add_file(".qmail-a", 'f', xb ? 0700 : 0600, c, cl);
         one();
       }
+  }
+  /* (2b) control files longer than the chunks they are read in (slurpclose reads 256 bytes at a time): a comment of
+          every length that puts the following instruction lines across offsets 256, 512, 1024 */
+  {
+    static const int B[] = { 256, 512, 1024 };
+    for (unsigned b = 0; b < 3; b++)
+      for (int off = B[b] - 14; off <= B[b] + 2; off++)
+        for (int xb = 0; xb < 2; xb++) {
+          if (!mine()) continue;
+          k_clear(); strcpy(K.k_ext, "a"); set_local_std();
+          cl = 0; c[cl++] = '#'; while (cl < off - 1) c[cl++] = 'c'; c[cl++] = '\n';
+          cl += sprintf((char *)c + cl, "&first@x \n./mb\n+list\n&last@y\n|exit 0\n");
+          add_file(".qmail-a", 'f', xb ? 0700 : 0600, c, cl);
+          one();
+        }
   }
   /* (3) real deliveries: every exit code; earlier forward is kept on 99, dropped on failure */
   for (int code = 0; code < 256; code++)
@@ -623,6 +741,27 @@ static void generate(int level, int nrandom, uint64_t seed) {
             msg_variant(mv);
             one();
           }
+    /* (6b) the Delivered-To line at every position relative to plausible read-buffer boundaries (the scan must not
+            depend on how the message is cut into reads): start offsets B-len-2 .. B+2 for B = 128 .. 8192, two line lengths
+            of the preceding header, the genuine line / a one-character miss / a prefix / the line after the header */
+    {
+      static const int B[] = { 128, 256, 512, 1024, 2048, 3072, 4096, 8192 };
+      for (unsigned b = 0; b < sizeof B / sizeof B[0]; b++)
+        for (int l = 0; l < 2; l++) {
+          k_clear(); strcpy(K.k_ext, "a"); strcpy(K.k_local, l ? "u\nBcc: z" : "u-a"); strcpy(K.k_host, l ? "h" : "example.com");
+          char dt[1400]; int dl = k_dtline(dt);
+          for (int start = B[b] - dl - 2; start <= B[b] + 2; start++)
+            for (int kind = 0; kind < 4; kind++) {
+              if (start < 2) continue;
+              if (kind && (start + b + l) % 3) continue;                   /* the misses: every third position */
+              if (!mine()) continue;
+              k_clear(); K.doit = 1; strcpy(K.k_ext, "a"); strcpy(K.k_local, l ? "u\nBcc: z" : "u-a"); strcpy(K.k_host, l ? "h" : "example.com");
+              add_file(".qmail-a", 'f', 0600, "&p@x\n", 5);
+              msg_at_offset(start, kind, (start + kind) % 2 ? 61 : 997);
+              one();
+            }
+        }
+    }
     for (unsigned s = 0; s < NSENDERS; s++)
       for (int own = 0; own < 4; own++)
         for (int doit = 0; doit < 2; doit++) {
